@@ -271,13 +271,23 @@ def _enum_power(drv="full"):
     return gen
 
 
+def _enum_pipe1_open(drv="full"):
+    """every core sequence of length 1..4 on a radio whose pipe 1 is open as well (closing pipe 0 then leaves other pipes open)"""
+    def gen():
+        for d in range(1, 5):
+            for word in itertools.product(CORE, repeat=d):
+                yield {"drv": drv, "aw": 5, "ops": [["orx", 1, "B"]] + [list(o) for o in word]}
+    return gen
+
+
 def strategy(drv="full"):
     from hypothesis import strategies as st
     alpha = ALPHA_LITE if drv == "lite" else ALPHA
     extra = [["otx", "Ts"], ["orx", 2, "B"], ["orx", 1, "As"], ["power", False], ["power", True], ["power", True], ["bad", "orx-pipe-1"], ["bad", "orx-empty", 1], ["bad", "orx-empty", 3], ["bad", "crx-pipe6"]]
     return st.fixed_dictionaries({
         "drv": st.just(drv), "aw": st.sampled_from([3, 4, 5]),
-        "ops": st.lists(st.sampled_from(alpha + extra), min_size=1, max_size=40),
+        # the core calls three times as likely as the rarer ones (refused calls, sleep / wake, other pipes)
+        "ops": st.lists(st.sampled_from([o for o in alpha if o[0] != "bad"] * 3 + extra + [o for o in alpha if o[0] == "bad"]), min_size=1, max_size=40),
     })
 
 
@@ -286,7 +296,9 @@ def parts(tier):
         return [Part("enum-depth4", "enum", _enum(4, (3, 5)), exhaustive=True),
                 Part("enum-core8-depth5-6", "enum", _enum(6, (5,), core=True, min_depth=5), exhaustive=True),
                 Part("sleep-wake-cycle-in-core-sequences", "enum", _enum_power(), exhaustive=True),
-                Part("generated", "gen", strategy, n=2000)]
-    return [Part("sleep-wake-cycle-in-core-sequences", "enum", _enum_power(), exhaustive=True), Part("enum-depth5", "enum", _enum(5, (3, 4, 5)), exhaustive=True),
+                Part("core-sequences-with-pipe-1-open", "enum", _enum_pipe1_open(), exhaustive=True),
+                Part("generated", "gen", strategy, n=20000)]
+    return [Part("sleep-wake-cycle-in-core-sequences", "enum", _enum_power(), exhaustive=True),
+            Part("core-sequences-with-pipe-1-open", "enum", _enum_pipe1_open(), exhaustive=True), Part("enum-depth5", "enum", _enum(5, (3, 4, 5)), exhaustive=True),
             Part("enum-core8-depth7", "enum", _enum(7, (4,), core=True, min_depth=7), exhaustive=True),
             Part("generated", "gen", strategy, n=100000)]
